@@ -265,3 +265,28 @@ package index
 //@     invariant small_start [C11]: 0 <= atcall(l) && atcall(l) <= 16
 //@     ensures stops_on_error [C16]: result == (err == nil)
 //@   end
+
+// Insertion index read-back and iteration (C11): every decoded record is inserted (none dropped, none replaced);
+// iteration yields each stored record's own multihash / CID with its own offset and stops at the first error.
+
+//@ func (*InsertionIndex).Unmarshal
+//@   let rd, rderr := call[newRecordDigest#0]
+//@   call[binary.Read#0] assert count_field [C11]: binsize(arg2) == 8
+//@   call[LLRB.InsertNoReplace#0] assert inserts_the_decoded_record [C11]: rderr == nil
+//@   loop[0] step one_record_per_iteration [C11]: i == athead(0, i) + 1
+
+//@ func (*InsertionIndex).ForEach
+//@   closure[0]
+//@     assume tree_holds_record_digests: typeis(i, "v2/index.recordDigest")
+//@     let ferr := call[dynamic#0]
+//@     call[dynamic#0] assert yields_own_offset [C11]: arg1 == r.Offset
+//@     ensures stops_at_first_error [C11,C16]: result == (ferr == nil) && err == ferr
+//@   end
+
+//@ func (*InsertionIndex).ForEachCid
+//@   closure[0]
+//@     assume tree_holds_record_digests: typeis(i, "v2/index.recordDigest")
+//@     let ferr := call[dynamic#0]
+//@     call[dynamic#0] assert yields_own_cid_and_offset [C07,C11]: arg0 == r.Cid && arg1 == r.Offset
+//@     ensures stops_at_first_error [C07,C11]: result == (ferr == nil) && err == ferr
+//@   end
